@@ -88,6 +88,9 @@ func genWirePin(r *common.Rng) *api.Pin {
 			p.Metadata["k"] = badStrings[r.Intn(len(badStrings))]
 		}
 	}
+	if r.Chance(1, 25) && len(p.Origins) > 0 { // a nil element: ProtoMarshal calls a method on the nil interface
+		p.Origins[r.Intn(len(p.Origins))] = nil
+	}
 	return p
 }
 
